@@ -40,9 +40,13 @@ NoneT == [reasons |-> {}, optional |-> FALSE, deleted |-> FALSE, retries |-> 0, 
 Confs_to == {[hc |-> [h \in H |-> IF h = "a" THEN HdlT({"create", "update"}, t) ELSE NoneT], order |-> <<"a">>, lifecycle |-> "asap", ctimeout |-> 2] : t \in {2, 3}}
 \* handlers that return results (status.<id>), on a kind without / with the status subresource (the status part is a request of its own)
 ConfR(hc, order, lc, ct, sb) == [hc |-> [h \in H |-> IF h \in DOMAIN hc THEN hc[h] ELSE None], order |-> order, lifecycle |-> lc, ctimeout |-> ct,
-                                 res |-> [ssub |-> sb, vals |-> {1, 2}]]
+                                 res |-> [ssub |-> sb, vals |-> {1, 2}, ev |-> "off"]]
+ConfRE(hc, order, lc, ct, sb, ev) == [ConfR(hc, order, lc, ct, sb) EXCEPT !.res.ev = ev, !.res.vals = {}]
+Confs_res_ev == {ConfRE(HC_ab, Order_ab, lc, 2, sb, ev) : lc \in {"one", "asap"}, sb \in BOOLEAN, ev \in {"mirror", "const"}}
 Confs_res == {ConfR(HC_ab, Order_ab, lc, 2, sb) : lc \in {"one", "asap"}, sb \in BOOLEAN}
 Confs_res_ad == {ConfR(HC_ad, <<"a", "d">>, "asap", 2, sb) : sb \in BOOLEAN}
+F36Code == TRUE       \* the code before fix F36: the version a patch returns is expected even if it is the one already seen
+F35Code == FALSE      \* the code before fix F35: no sleep after a patch, even if the patch has changed nothing
 NoDoors == {}
 AllDoors == {"kill", "lost", "late", "stop"}
 LateOnly == {"late"}
